@@ -1,0 +1,5 @@
+//go:build !verif
+
+package cdi
+
+func verifPoint(string, ...interface{}) {}
